@@ -12,7 +12,7 @@
   (Props/C01.lean), used through `Tree.c01Hyp`; the lemmas in Lemmas/Tree*.lean take it as the
   explicit hypothesis `C01Hyp`.
 -/
-import TakVerif.Lemmas.TreeC01
+import TakVerif.Lemmas.TreeReal
 
 namespace Tak.C08
 open Tak.Tree
@@ -196,6 +196,115 @@ theorem C08_simulate_total (cfg : Cfg) (tol : Tol)
   rw [simulate_eq_simRec, Option.isSome_map]
   exact simRec_isSome c01Hyp cfg tol choices true answers t hinv hf
 
+/-! ### Closed corollaries for the real engine
+
+  `realCfg cutoff noise mix` fixes the two parameters the generic theorems leave open: the game-over
+  test is `Impl.winner` (equal to the rule book's `Spec.outcome` by `C02_winner_spec`) and the move
+  table is `Gen.allMovesForSize` (every legal move exactly once: `C03_legal_has_id`,
+  `C07_table_nodup`).  Nothing else is assumed. -/
+
+/-- The headline statement for the real engine: a search with budget `n ≥ 1` (adjudication by
+    `Impl.winner`, ids decoded by the real move table) from a tree satisfying the invariant returns
+    a tree satisfying it, with exactly `max n (visits before)` root visits and the searched position
+    untouched. -/
+theorem C08_analyze_real (cutoff : Rat) (noise : Bool) (mix : Rat) (tol : Tol) (hp : 0 ≤ tol.ptol)
+    (hv : 0 ≤ tol.vtol) (n : Nat) (hn : 0 < n) (t t' : Node) (choices : List Nat) (answers : List Answer)
+    (hinv : TreeInv (realCfg cutoff noise mix) tol t)
+    (h : analyzeTree (realCfg cutoff noise mix) n t choices answers = some t') :
+    TreeInv (realCfg cutoff noise mix) tol t' ∧ t'.sims = max n t.sims ∧ t'.position = t.position := by
+  have h1 := C08_analyze (realCfg cutoff noise mix) tol hp hv n hn t t' choices answers hinv h
+  have h2 := C08_position_untouched (realCfg cutoff noise mix) tol hp hv n hn t t' choices answers hinv h
+  exact ⟨h1.1, h1.2, h2.1⟩
+
+/-- … started on a well-formed position: exactly `n` root visits -/
+theorem C08_analyze_fresh_real (cutoff : Rat) (noise : Bool) (mix : Rat) (n : Nat) (hn : 0 < n) (p : Pos)
+    (hwf : p.WF) (t' : Node) (choices : List Nat) (answers : List Answer)
+    (h : analyze (realCfg cutoff noise mix) n p choices answers = some t') :
+    TreeInv (realCfg cutoff noise mix) Tol.exact t' ∧ t'.sims = n ∧ t'.position = p := by
+  have hz : (0 : Rat) ≤ 0 := le_refl _
+  have h1 := C08_analyze_fresh (realCfg cutoff noise mix) Tol.exact hz hz n hn p hwf t' choices answers h
+  have h2 := C08_position_untouched (realCfg cutoff noise mix) Tol.exact hz hz n hn (fresh p none) t'
+    choices answers (fresh_inv _ _ p none hwf) h
+  exact ⟨h1.1, h1.2, h2.1⟩
+
+/-- Terminal nodes, by the rule book: at every node whose position the rules declare over
+    (`Spec.outcome` gives a reason — road, full board or exhausted reserve — with winner `w`, `none`
+    for a draw), the node is never expanded, its accumulated value is visits × outcome and, once
+    visited, its own value is the outcome: +1 / −1 / 0 for the side to move.  At every node the
+    rules do not declare over, an unexpanded node has no visits. -/
+theorem C08_terminal_real (cutoff : Rat) (noise : Bool) (mix : Rat) (tol : Tol) (t : Node)
+    (hinv : TreeInv (realCfg cutoff noise mix) tol t) :
+    t.All fun n =>
+      (∀ w r, Spec.outcome n.position = (w, some r) →
+        n.children = none ∧ n.value = n.sims * outcomeValue n.position.toMove w ∧
+        (0 < n.sims → n.v0 = outcomeValue n.position.toMove w)) ∧
+      (∀ w, Spec.outcome n.position = (w, none) → n.children = none → n.sims = 0 ∧ n.value = 0) := by
+  refine Node.All.imp ?_ hinv
+  intro n hloc
+  have hwf : n.position.WF := by unfold Local at hloc; exact hloc.1
+  have hreal : (realCfg cutoff noise mix).outcome n.position = specOutcome n.position :=
+    realOutcome_eq_spec n.position hwf
+  constructor
+  · intro w r ho
+    have : (realCfg cutoff noise mix).outcome n.position = some w := by
+      rw [hreal]; unfold specOutcome; rw [ho]
+    obtain ⟨_, h1, h2, h3⟩ := (local_terminal this).1 hloc
+    exact ⟨h1, h3, h2⟩
+  · intro w ho hc
+    have : (realCfg cutoff noise mix).outcome n.position = none := by
+      rw [hreal]; unfold specOutcome; rw [ho]
+    obtain ⟨_, h1, h2⟩ := (local_unexpanded this hc).1 hloc
+    exact ⟨h1, h2⟩
+
+/-- Children versus the legal moves, for the real move table: at every expanded node the children's
+    moves are pairwise different, each is legal and its child holds the position the rules
+    prescribe, and a legal move `m` (in the plain form the table stores) is the move of a child
+    exactly when the effective prior at ITS id — `encode_move(size, m)`, which exists and is the
+    only id decoding to `m` — reaches the cutoff.  So children are one-to-one with the legal moves
+    whose prior reaches the cutoff. -/
+theorem C08_children_legal_real (cutoff : Rat) (noise : Bool) (mix : Rat) (tol : Tol) (t : Node)
+    (hinv : TreeInv (realCfg cutoff noise mix) tol t) :
+    t.All fun n => ∀ cs, n.children = some cs → ∃ ev, n.ev = some ev ∧
+      (cs.map (·.move)).Nodup ∧
+      (∀ c ∈ cs, ∃ m, c.move = some m ∧ Rules.Legal n.position m ∧ c.position = Rules.result n.position m) ∧
+      (∀ m, Rules.Legal n.position m → m.Plain →
+        ∃ i, Gen.encodeMove n.position.size m = some i ∧ Gen.decodeMove n.position.size i = some m ∧
+          (some m ∈ cs.map (·.move) ↔
+            ∃ pr, (effectivePrior (realCfg cutoff noise mix) ev)[i]? = some pr ∧ cutoff ≤ pr)) := by
+  have hleg := C08_children_legal (realCfg cutoff noise mix) tol t hinv
+  induction hinv with
+  | mk n hloc hch ih =>
+    refine Node.All.mk n ?_ (fun cs hc c hm => ih cs hc c hm (hleg.child hc hm))
+    intro cs hc
+    have ho := outcome_none_of_expanded hloc hc
+    obtain ⟨hwf, ev, hev, hok⟩ := (local_expanded ho hc).1 hloc
+    refine ⟨ev, hev, ?_, hleg.here cs hc, ?_⟩
+    · rw [hok.moves]
+      have := selected_real_nodup cutoff noise mix n.position ev
+      have h2 : (selected (realCfg cutoff noise mix) n.position ev).map (fun c => some c.1) =
+          ((selected (realCfg cutoff noise mix) n.position ev).map (·.1)).map some := by
+        rw [List.map_map]; rfl
+      rw [h2]
+      exact nodup_map_some _ this
+    · intro m hl hpl
+      obtain ⟨i, hi1, hi2⟩ := Tak.C03.C03_legal_has_id n.position m hwf hl hpl
+      refine ⟨i, hi1, hi2, ?_⟩
+      rw [hok.moves]
+      constructor
+      · intro hmem
+        obtain ⟨x, hx, hxm⟩ := List.mem_map.1 hmem
+        obtain ⟨m', pr⟩ := x
+        simp only [Option.some.injEq] at hxm
+        subst hxm
+        obtain ⟨j, hj1, hj2, hj3, _⟩ := (selected_real_mem cutoff noise mix n.position ev m' pr).1 hx
+        have := decode_id_unique n.position.size j m' hj1
+        rw [hi1] at this
+        cases this
+        exact ⟨pr, hj2, hj3⟩
+      · rintro ⟨pr, h1, h2⟩
+        exact List.mem_map.2 ⟨(m, pr),
+          (selected_real_mem cutoff noise mix n.position ev m pr).2 ⟨i, hi2, h1, h2, hl⟩, rfl⟩
+
 /-! ### Non-vacuity: a concrete search (3×3 opening position, a three-move table, three simulations)
 
   The hypotheses of the theorems above are met by concrete non-trivial values: the fresh root
@@ -226,6 +335,14 @@ example : (analyze exCfg 3 exPos [0, 1, 0] exAnswers).all (fun t =>
 example : (analyze exCfg 3 exPos [0, 1, 0] exAnswers).all (fun t =>
     decide (TreeInv exCfg Tol.exact t) && t.sims == 3 && decide (t.position = exPos) &&
     (t.firstFail fun n => if rabs n.value ≤ n.sims then none else some "bound").isNone) = true := by
+  decide +kernel
+
+/-- the real configuration on the 3×3 opening: 135 ids, 9 legal first moves, two simulations -/
+example : (analyze (realCfg (1 / 1000000) false (1 / 4)) 2 exPos [4]
+      [⟨List.replicate 135 (1 / 256), 1 / 2, none⟩, ⟨List.replicate 4572 (1 / 8192), -1 / 2, none⟩]).all (fun t =>
+    decide (TreeInv (realCfg (1 / 1000000) false (1 / 4)) Tol.exact t) && t.sims == 2 &&
+    (t.children.getD []).length == 9 && decide (t.value = 1) &&
+    ((t.children.getD []).map fun c => (c.children.getD []).length) == [0, 0, 0, 0, 8, 0, 0, 0, 0]) = true := by
   decide +kernel
 
 end Tak.C08
